@@ -28,16 +28,16 @@ ADD = {
  "C03": " Also decided: Retry stops at the first failing retransmission (entries run on a broken connection queue themselves again and arrive out of order).",
  "C16": " Also decided: the keep-alive goroutine records KeepAlive's result only while its own context is live (a stopped keep-alive does not turn Err() non-nil after a graceful Disconnect); on the `disconnected` case the reconnect loop does not close the connection itself (R-C16-6).",
  "C04": " Also decided: the Message a PUBLISH is parsed into is a fresh object per packet (a held QoS 2 message cannot be overwritten by the next PUBLISH).",
- "C05": " Also decided: Message.Dup is assigned on every path before the PUBLISH is packed (the DUP bit on the wire is the one decided for this transmission); the inbound identifier is read at the offset right after the topic; the subscription list that re-SUBSCRIBE packets are built from records the requested QoS before BaseClient.Subscribe overwrites it with the granted one.",
+ "C05": " Also decided: Message.Dup is assigned on every path before the PUBLISH is packed (the DUP bit on the wire is the one decided for this transmission); the inbound identifier is read at the offset right after the topic; the subscription list that re-SUBSCRIBE packets are built from records the requested QoS before BaseClient.Subscribe overwrites it with the granted one; the remaining-length decoder accepts all four length bytes (a decoder that gives up earlier rejects legal large bodies).",
  "C07": " Also decided: a wait shared between the QoS levels has no live case on the waiter of another acknowledgement kind (a PUBACK cannot complete the PUBREC stage).",
- "C08": " Also decided: the loop in which Resubscribe re-issues its snapshot ends only when the snapshot is exhausted and no iteration skips its request.",
+ "C08": " Also decided: the loop in which Resubscribe re-issues its snapshot ends only when the snapshot is exhausted and no iteration skips its request; the reconnect loop calls Retry after every successful connect.",
  "C09": " Also decided: every path of the reconnect goroutine to a return passes ctx-done, `disconnected` or Err() == nil; a failed ping makes KeepAlive return a non-nil error and leaves the closed connection with a non-nil Err(); the loop's context is rebound to context.Background() at the first success.",
  "C11": " Also decided: BaseClient.Close closes the transport on every path, and so does Disconnect once DISCONNECT was written; the packet body allocation is bounded by the protocol maximum (a crafted length cannot make the reader wait for gigabytes).",
  "C12": " Also decided: PUBREL is written only by the PUBREL stage of the QoS 2 publish.",
  "C13": " Also decided: after a keep-alive failure the closed connection reports a non-nil Err(), so the loop redials.",
  "C15": " Also decided: Message.ID is written only in the publish implementation, only when it is 0, from newID(); the counter is followed through pointer conversions and helper methods.",
  "C18": " Also decided: the reconnect loop then stops only on request (so a new connection is established); what is reported is identifiable as RequestTimeoutError.",
- "C19": " Also decided: every context bounded by ResponseTimeout is the requestContext wrapper and its Err() yields RequestTimeoutError whenever the bound can have expired.",
+ "C19": " Also decided: every context bounded by ResponseTimeout is the requestContext wrapper and its Err() yields RequestTimeoutError whenever the bound can have expired; every reflect.Value.Elem() the chain walk of (*Error).Is can reach is dominated by a Kind() == reflect.Ptr test of the same error (errors.Is answers rather than panics on a chain ending in a value-typed error).",
 }
 for _pid, _t in ADD.items():
     if _pid in P and P[_pid].get("claimed"):
